@@ -168,6 +168,9 @@ func newExecutor() *kmipserver.BatchExecutor {
 // gapConfig: the replay pass against an executor configured with a set of versions that has a gap (1.0 and 1.4)
 var gapConfig bool
 
+// orderOpt: the Batch Order Option the requests carry (nil: absent)
+var orderOpt *bool
+
 // withIgnorableExt: every item carries a non-critical message extension (set by the replay pass that uses it)
 var withIgnorableExt bool
 
@@ -192,6 +195,7 @@ func buildRequest(rid int, q Req) *kmip.RequestMessage {
 	case "Undo":
 		msg.Header.BatchErrorContinuationOption = kmip.BatchErrorContinuationOptionUndo
 	}
+	msg.Header.BatchOrderOption = orderOpt
 	msg.Header.BatchCount = int32(len(q.Items))
 	if q.Count == "mismatch" {
 		msg.Header.BatchCount = int32(len(q.Items)) + 1
@@ -382,9 +386,15 @@ func TestReplay(t *testing.T) {
 	for n, c := range cases {
 		// batch semantics are a function of the request message: the same case with a live context, with a context that is already
 		// cancelled when the request arrives (the client has gone away) and with one cancelled by the first handler that runs
-		for _, ctxMode := range []string{"live", "cancelled", "cancelled-by-handler", "live+ignorable-extensions", "live+versions-with-a-gap"} {
+		for _, ctxMode := range []string{"live", "cancelled", "cancelled-by-handler", "live+ignorable-extensions", "live+versions-with-a-gap", "live+order-false", "live+order-true"} {
 			withIgnorableExt = ctxMode == "live+ignorable-extensions"
 			gapConfig = ctxMode == "live+versions-with-a-gap"
+			// the Batch Order Option of the header: the property orders the handlers of every batch, whatever the client asks for
+			orderOpt = nil
+			if ctxMode == "live+order-false" || ctxMode == "live+order-true" {
+				b := ctxMode == "live+order-true"
+				orderOpt = &b
+			}
 			ex := ex
 			if gapConfig {
 				ex = exGap
